@@ -301,6 +301,24 @@ def _init(ctx, methods):
     if fn is None:
         ctx.error('C18.D2', 'anchor vanished: Version.__init__')
         return
+    # every version spelling the property speaks of is accepted by the constructor's regex: 3, 2.0, 3.0.0, 2.0rc1 ...
+    try:
+        from .. import lang as L_
+        from .. import spec as S_
+        vr = ctx.model.const(MOD, 'VERSION_RE')
+        pr = L_.PyRegex(vr.pattern, vr.flags)
+        spellings = S_.rx_of(r'[0-9]+(\.[0-9]+)*([a-zA-Z+\- ][a-zA-Z0-9.+\- ]*)?')
+        w = L_.find_not_included(spellings, pr.match_lang(), max_witnesses=1)
+        if w:
+            wt = ''.join(chr(c) for c in w[0])
+            ctx.violation('C18.D2', '%s::VERSION_RE' % F, vr.pattern,
+                          "Version(%r) raises ValueError (\"Not a valid version string\"): the constructor's regex does not accept "
+                          "that spelling, so `Version(%r) == Version('%s.0')` cannot even be evaluated" % (wt, wt, wt),
+                          'VERSION_RE rejects a well-formed version number', file=F, engine='E3')
+        else:
+            ctx.ob('C18.D2', 'VERSION_RE accepts every dotted-decimal version with an optional suffix', True, F)
+    except Exception as e:
+        ctx.error('C18.D2', 'VERSION_RE: %s' % e)
     found = False
     for node in walk_no_nested(fn):
         if isinstance(node, ast.Assign) and norm(node.targets[0]).endswith('.version_nums') \
